@@ -66,7 +66,9 @@ SPEC_DEPTH = 1000       # default maxdepth; calls with it use the default argume
 def generate(ctx: Ctx):
     src, consts = gen_c16.translate()
     ctx.extra["generated_constants"] = consts
-    return [("Ipv8/C16/GenConst.lean", src)]
+    tsrc, trees = gen_c16.translate_trees()
+    ctx.extra["generated_decision_trees"] = trees
+    return [("Ipv8/C16/GenConst.lean", src), ("Ipv8/C16/GenGather.lean", tsrc)]
 
 
 def capw(cap: int) -> str:
@@ -430,6 +432,34 @@ class Run:
     def claimed(self, i: int) -> bytes:
         return b"relay-claims-%d" % i
 
+    def gather_class(self, tree, i, tok, res, keys_before, waiting_before, was_waiting, stored_before, carried,
+                     empty_before) -> str:
+        """which path through gather_token this call took, by the harness's own knowledge of the token and by the
+        state before / after (a path class that stays at zero in a green run makes the run fail, see REQUIRED)"""
+        t = self.toks[i]
+        if not wellformed(t):
+            return "unsized"
+        if not t["good"]:
+            return "bad-signature"
+        if res is None:
+            if was_waiting:
+                return "park-duplicate-of-waiting"
+            if waiting_before >= self.sc["cap"]:
+                return "park-evicts-oldest"
+            return "park-new"
+        if stored_before is not None:
+            if carried is None:
+                return "shadow-no-content-offered"
+            if not empty_before:
+                return "shadow-content-already-there"
+            return "shadow-receive-bound" if sha3(carried) == bytes.fromhex(t["chash"]) else "shadow-refuse-foreign"
+        new = set(tree.elements) - keys_before - {self.hid[i]}
+        if not new:
+            return "chain-no-wakeup"
+        if any(tree.elements[h].previous_token_hash in new for h in new):
+            return "chain-wakes-nested"
+        return "chain-wakes-1" if len(new) == 1 else "chain-wakes-siblings"
+
     def db_content(self, i: int, form: str):
         """the content column of the database row used for forms dbgood / dbbad / dbnone"""
         t = self.toks[i]
@@ -619,7 +649,10 @@ class Run:
     def expected_path(self, tree, i: int, maxdepth: int):
         """root path of descriptor i through the CURRENT elements, by ground truth; None = no path within depth"""
         t = self.toks[i]
+        self.walk_class = "token-not-signed-or-unsized"
         if not t["good"] or maxdepth <= 0 or not wellformed(t):
+            if maxdepth <= 0:
+                self.walk_class = "zero-depth"
             return None
         goodh = {tk_hid(x) for x in self.toks if x["good"]}
         path = [self.hid[i]]
@@ -627,11 +660,17 @@ class Run:
         steps = 0
         while True:
             if prev == self.genesis:
+                self.walk_class = "success-len1" if len(path) == 1 else "success-len2+"
                 return path
-            if prev not in tree.elements or prev not in goodh:
+            if prev not in tree.elements:
+                self.walk_class = "parent-missing"
+                return None
+            if prev not in goodh:
+                self.walk_class = "ancestor-not-signed"
                 return None
             steps += 1
             if steps >= maxdepth:
+                self.walk_class = "depth-exhausted"
                 return None
             path.append(prev)
             e = tree.elements[prev]
@@ -673,7 +712,13 @@ class Run:
                         self.ctx.count("offer-carries:%s:%s" % (
                             "bound" if sha3(carried) == tok.content_hash else "foreign-content",
                             "already-stored" if stored_before is not None else "not-stored"))
+                    keys_before = set(tree.elements)
+                    waiting_before = len(tree.unchained)
+                    was_waiting = tok in tree.unchained
                     res = tree.gather_token(tok)
+                    self.ctx.count("branch:gather:" + self.gather_class(tree, i, tok, res, keys_before, waiting_before,
+                                                                        was_waiting, stored_before, carried,
+                                                                        empty_before))
                     if empty_before and carried is not None and self.toks[i]["good"]:
                         now = tree.elements[self.hid[i]].content
                         want = carried if sha3(carried) == bytes.fromhex(self.toks[i]["chash"]) else None
@@ -697,7 +742,9 @@ class Run:
                     _, parent, chex, by_hash = op
                     c = bytes.fromhex(chex)
                     after = self.own_objs[parent] if parent >= 0 else None
+                    n_before = len(tree.elements)
                     tok = tree.add_by_hash(sha3(c), after) if by_hash else tree.add(c, after)
+                    self.ctx.count("branch:append:%s" % ("new-key" if len(tree.elements) > n_before else "overwrite"))
                     d = {"prev": tok.previous_token_hash.hex(), "chash": tok.content_hash.hex(), "sig": tok.signature.hex(),
                          "content": None if by_hash else chex, "good": True, "label": "own"}
                     i = len(self.toks)
@@ -790,6 +837,8 @@ class Run:
                     exp = self.expected_path(tree, i, depth if judged else 10 ** 9)
                     if not judged:
                         self.ctx.count("maxdepth:negative(unjudged)")
+                    else:
+                        self.ctx.count(f"branch:walk:{self.walk_class}")
                     if kind == "verify":
                         r = tree.verify(tok) if depth == SPEC_DEPTH else tree.verify(tok, maxdepth=depth)
                         if judged:
@@ -1654,6 +1703,87 @@ def run_exhaustive(ctx: Ctx, sizes, use_model: bool, extra_kinds=None, tag="plai
         "every_kind_for_every_shape": bool(extra_kinds) and not one_kind_per_shape, "orders_run": total}
 
 
+# branch classes of the modelled code that every green run has to reach (design.d/C16.md section 10).  A class that
+# stays at zero although nothing failed is a silent loss of coverage: the run ends with exit 2, not with a pass.
+REQUIRED = [
+    "branch:gather:unsized", "branch:gather:bad-signature", "branch:gather:park-new",
+    "branch:gather:park-duplicate-of-waiting", "branch:gather:park-evicts-oldest",
+    "branch:gather:shadow-no-content-offered", "branch:gather:shadow-content-already-there",
+    "branch:gather:shadow-receive-bound", "branch:gather:shadow-refuse-foreign",
+    "branch:gather:chain-no-wakeup", "branch:gather:chain-wakes-1", "branch:gather:chain-wakes-siblings",
+    "branch:gather:chain-wakes-nested",
+    "branch:walk:token-not-signed-or-unsized", "branch:walk:zero-depth", "branch:walk:parent-missing",
+    "branch:walk:ancestor-not-signed", "branch:walk:depth-exhausted", "branch:walk:success-len1",
+    "branch:walk:success-len2+",
+    "branch:append:new-key", "branch:append:overwrite",
+    "recv:bound", "recv:unbound", "fromdb:bound", "fromdb:unbound",
+    "unser_mut:*:error", "unser_mut:*:true", "unser_mut:*:false", "reload:True", "reload_upto:*",
+    "tree-opened-with:private_key", "tree-opened-with:public_key=<secret holder>",
+    "tree-opened-with:public_key=<bare public key>", "multi:view-opened-with:secret holder",
+    "multi:view-opened-with:bare public key", "loaded:trees-with-invalid-elements",
+    "offer-carries:foreign-content:already-stored", "offer-carries:bound:already-stored",
+    "multi:offer:other-key:none:seen-by-another-tree-before", "offered:resplit", "op:create", "op:todb",
+]
+
+
+def check_required(ctx: Ctx):
+    import fnmatch
+    from vlib import InfraError
+    missing = [pat for pat in REQUIRED if not any(v > 0 and fnmatch.fnmatchcase(k, pat) for k, v in ctx.counts.items())]
+    ctx.extra["required_branch_classes"] = {"listed": len(REQUIRED), "reached": len(REQUIRED) - len(missing),
+                                            "missing": missing}
+    if missing and not ctx.failures and not ctx.disagreements and not ctx.broken:
+        raise InfraError("coverage lost: branch classes never reached in this run: " + ", ".join(missing))
+
+
+def run_tour(ctx: Ctx, use_model: bool):
+    """deterministic histories that walk through every branch class of REQUIRED that a random scenario could miss"""
+    rng = ctx.rng
+    keyhex, fkeyhex = seeded_key(rng), seeded_key(rng)
+    sk, fk = load_key(keyhex), load_key(fkeyhex)
+    g = sha3(sk.pub().key_to_bin())
+
+    def scen(toks, ops, cap=100, **kw):
+        return dict({"key": keyhex, "fkey": fkeyhex, "keytype": "curve25519", "cap": cap, "shape": "tour",
+                     "order": "tour", "size_class": "tour", "parents": [], "mix": [], "tokens": toks, "ops": ops}, **kw)
+    a = mk_token(sk, g, b"tour-a")
+    b = mk_token(sk, tk_hid(a), b"tour-b")
+    c = mk_token(sk, tk_hid(a), b"tour-c")
+    d = mk_token(sk, tk_hid(b), b"tour-d")
+    e = mk_token(sk, tk_hid(d), b"tour-e")
+    f = dict(b, sig=flip(bytes.fromhex(b["sig"]), rng).hex(), good=False, label="forged-sig")
+    both = bytes.fromhex(b["prev"]) + bytes.fromhex(b["chash"])
+    x = dict(b, prev=both[:31].hex(), chash=both[31:].hex(), content=None, label="resplit")
+    dg = mk_token(sk, sha3(b"tour-nowhere"), b"tour-dangling", label="dangling")
+    G = "gather"
+    s1 = scen([a, b, c, d, e, f, x, dg],
+              [[G, 6, "hash"], [G, 5, "pub"], [G, 3, "pub"], [G, 3, "hash"], [G, 4, "pub"], [G, 1, "pub"], [G, 2, "pub"],
+               [G, 0, "pub"], [G, 0, "pub"], [G, 0, "full"], [G, 0, "fullbad"], [G, 2, "fullbad"], [G, 7, "pub"],
+               ["verify", 5, 1000], ["verify", 4, 1], ["verify", 7, 1000], ["verify", 0, 1000], ["verify", 4, 1000],
+               ["verify", 0, 0], ["path", 5, 1000], ["path", 4, 2], ["path", 7, 1000], ["path", 0, 1000],
+               ["path", 4, 1000], ["path", 4, 0]])
+    s2 = scen([a, b, d], [[G, 2, "pub"], [G, 1, "pub"], [G, 0, "pub"]], cap=1)
+    s3 = scen([a, b, c], [[G, 1, "pub"], [G, 2, "hash"], [G, 0, "pub"], [G, 0, "hash"]])
+    s4 = scen([a, b], [[G, 0, "pub"], [G, 1, "pub"]], open_with_secret=True)
+    fr = mk_token(fk, g, b"tour-foreign", label="foreign", good=False)
+    ch = mk_token(sk, tk_hid(fr), b"tour-child", label="dangling-child")
+    s5 = scen([fr, ch], [["load", 0, "hash"], ["load", 1, "hash"], ["verify", 1, 1000], ["path", 1, 1000],
+                         ["verify", 0, 1000]], loaded=True)
+    s6 = scen([], [["add", -1, b"tour-own".hex(), False], ["add", -1, b"tour-own".hex(), False],
+                   ["add", 0, b"tour-own2".hex(), True], ["reload"]], own=True)
+    runs = []
+    for sc in (s1, s2, s3, s4, s5, s6):
+        r = Run(ctx, sc, use_model)
+        r.run()
+        if not sc.get("loaded") and not sc.get("own"):
+            r.check_complete(r.tree, "tour")
+        runs.append(r)
+        ctx.count("special:tour")
+        ctx.case(("tour", len(sc["tokens"]), len(sc["ops"]), sc["cap"]), True)
+    if use_model:
+        feed_model(ctx, runs)
+
+
 def run_special(ctx: Ctx, use_model: bool):
     """hand-picked histories: the fork woken from the waiting area, deep chains in reverse, the cap boundary"""
     rng = ctx.rng
@@ -1696,6 +1826,7 @@ def run_special(ctx: Ctx, use_model: bool):
 def run(ctx: Ctx):
     if ctx.replay_input is not None:
         return replay(ctx, ctx.replay_input)
+    run_tour(ctx, ctx.model_ok)
     run_special(ctx, ctx.model_ok)
     run_deep(ctx)
     # exhaustive small scope.  The property asks for "every tree shape with up to 6 tokens and every permutation of
@@ -1714,9 +1845,11 @@ def run(ctx: Ctx):
     run_own(ctx, ctx.scale(150, 1000), ctx.model_ok)
     run_multi(ctx, ctx.scale(250, 2000), ctx.model_ok)
     run_random(ctx, ctx.scale(400, 3000), ctx.scale(3, 5), ctx.model_ok)
+    check_required(ctx)
 
 
 def search(ctx: Ctx, reason: str):
+    run_tour(ctx, False)
     run_special(ctx, False)
     run_exhaustive(ctx, range(1, 5 if ctx.tier == "quick" else 6), False, tag="search-plain")
     run_exhaustive(ctx, range(1, 4 if ctx.tier == "quick" else 5), False, EXTRA_KINDS, tag="search-one-extra-item")
